@@ -13,7 +13,10 @@ Shape S.  The enumerated space is
                namespace members (unreferenced / referenced by an exported signature); a
                foreign type named by an exported signature or base list; a derived class
                re-declaring an inherited virtual (base declaration x derived declaration
-               sections, 8 inheritance shapes, const/pure) which must stay reachable
+               sections, 8 inheritance shapes, const/pure) which must stay reachable; a
+               published member whose parameter / return / data / callback type involves a
+               private or protected nested class or enum directly, through pointer or const
+               reference, or through typedefs declared in any section
   x placement  command-line file, second command-line file, header found in cwd, header
                found via the includer's directory, via -I, via -S (<> and ""), .cxx file
                (included / named on the command line)
@@ -231,7 +234,10 @@ class Observed:
                 continue
             expose(sn, strip_acc=bool(fl & (F_GETTER | F_SETTER)))
         for e in db["elements"].values():
-            expose(e["scoped_name"])
+            # an element record without any accessor function makes nothing reachable
+            if e["getter"] or e["setter"] or e["has_function"] or e["clear_function"] \
+                    or e["del_function"] or e["length_function"]:
+                expose(e["scoped_name"])
         for m in db["manifests"].values():
             expose(m["name"])
         for s in db["make_seqs"].values():
@@ -361,6 +367,9 @@ def make_bundles(tier, only):
     # inherited virtual overrides: in the command-line file, a cwd header and an -I header
     for pl in ("main", "cwd", "I"):
         placed[pl] += [hg.VirtAtom(pfx("v"), *x) for x in hg.virt_space(tier)]
+    # signatures involving a private/protected nested type, directly or through aliases
+    for pl in ("main", "cwd"):
+        placed[pl] += [hg.ProtAtom(pfx("h"), *x) for x in hg.prot_space(tier)]
     out.append((Bundle("singles-all-placements", placed), ALL + PYN))
     # 2. all ordered pairs over the 12 kinds x 7 labels in the command-line file
     chunked("pairs-main", "main", class_list(2, hg.LABELS), 1000, NOCWD)
@@ -544,6 +553,8 @@ def main():
             "typedef outside a publish region aliasing an exported class, the unlabelled leading "
             "section of a struct inside a publish region: unjudged",
             "layouts with two destructors are not valid programs and are skipped",
+            "a data-member record that has no accessor function exposes nothing callable and is "
+            "not counted as exported; a typedef aliasing a hidden nested type is unjudged",
             "a re-declared inherited virtual may be elided from the derived class iff the method "
             "stays callable through a base class the database lists for it (reachability)"],
         extra=dict(stats, suppressed_duplicate_failures=suppressed,
@@ -558,6 +569,8 @@ def atom_args(a):
         return {"kind": a.kind, "in_publish": a.in_publish}
     if isinstance(a, hg.VirtAtom):
         return {"virt": [a.base_sec, a.der_sec, a.inh, a.constness, a.pure]}
+    if isinstance(a, hg.ProtAtom):
+        return {"prot": [a.hide, a.hkind, a.reach, a.use]}
     return {"how": a.how}
 
 
@@ -570,6 +583,8 @@ def atom_from(d):
         return hg.GlobalAtom(p, args["kind"], args["in_publish"])
     if cls == "VirtAtom":
         return hg.VirtAtom(p, *args["virt"])
+    if cls == "ProtAtom":
+        return hg.ProtAtom(p, *args["prot"])
     return hg.RefAtom(p, args["how"])
 
 
